@@ -35,6 +35,10 @@ OBLIGATIONS = [
     s(1, 'empty_feb30', {'NMON': 1, 'NDOM': 1}, ['EMPTY=ASSUME(in.mon[0] == 2 && in.dom[0] >= 30)'], cand=1, uw={'rrul_fill_yly.*': 68}, timeout=1500, tiers=T),
     s(2, 'empty_feb30', {'NMON': 1, 'NDOM': 1}, ['EMPTY=ASSUME(in.mon[0] == 2 && in.dom[0] >= 30)'], cand=1, uw={'rrul_fill_mly.*': 68}, timeout=1500, tiers=T),
     # BYMONTH months that INTERVAL can never reach from DTSTART's month: the month-skipping loop must not be entered
+    s(2, 'empty_incongruent_bymonth_fixdate', {'NMON': 1}, ['EMPTY=ASSUME((in.mon[0] - in.m) % 3 != 0)', 'FIXDATE'], inter=3, cand=1, uw={'rrul_fill_mly.*': 16}, timeout=1500, mem_gb=16,
+      bounds='every start month x every BYMONTH month not congruent modulo INTERVAL=3; DTSTART 2030-mm-15T09:30:00'),
+    s(2, 'empty_incongruent_bymonth_fixdate', {'NMON': 1}, ['EMPTY=ASSUME((in.mon[0] - in.m) % 6 != 0)', 'FIXDATE'], inter=6, cand=1, uw={'rrul_fill_mly.*': 16}, timeout=1500, mem_gb=16, tiers=T,
+      bounds='every start month x every BYMONTH month not congruent modulo INTERVAL=6; DTSTART 2030-mm-15T09:30:00'),
     s(2, 'empty_incongruent_bymonth', {'NMON': 1}, ['EMPTY=ASSUME((in.mon[0] - in.m) % 3 != 0)'], inter=3, cand=1, uw={'rrul_fill_mly.*': 16}, tiers=T),
     s(2, 'empty_incongruent_bymonth', {'NMON': 1}, ['EMPTY=ASSUME((in.mon[0] - in.m) % 6 != 0)'], inter=6, cand=1, uw={'rrul_fill_mly.*': 16}, tiers=T),
     s(4, 'empty_feb30', {'NMON': 1, 'NDOM': 1}, ['EMPTY=ASSUME(in.mon[0] == 2 && in.dom[0] >= 30)', 'YMIN=2099', 'DMIN=1'], cand=1, uw={'rrul_fill_dly.*': 40}, timeout=1500, mem_gb=16),
